@@ -98,6 +98,35 @@ def _fits(v, ty: Optional[T.Ty]) -> bool:
     return True
 
 
+def _blank_instance(cls):
+    """An instance without running __init__ / validators / model_post_init."""
+    if not hasattr(cls, "model_construct"):
+        return object.__new__(cls)
+    try:
+        return cls.model_construct()
+    except Exception:
+        obj = cls.__new__(cls)
+        object.__setattr__(obj, "__dict__", {})
+        object.__setattr__(obj, "__pydantic_fields_set__", set())
+        extra = cls.model_config.get("extra") == "allow"
+        object.__setattr__(obj, "__pydantic_extra__", {} if extra else None)
+        priv = {}
+        for name, pa in getattr(cls, "__private_attributes__", {}).items():
+            try:
+                d = pa.get_default()
+                priv[name] = copy.deepcopy(d)
+            except Exception:
+                pass
+        object.__setattr__(obj, "__pydantic_private__", priv)
+        for name, f in cls.model_fields.items():
+            try:
+                if not f.is_required():
+                    obj.__dict__[name] = f.get_default(call_default_factory=True)
+            except Exception:
+                pass
+        return obj
+
+
 def ast_is_classvar(ann) -> bool:
     return ast.unparse(ann).startswith("ClassVar")
 
@@ -133,8 +162,18 @@ class Builder:
             if "$dict" in v:
                 out = {}
                 self.memo[r] = out
+                tt = T.strip_opt(ty) if ty is not None else None
+                kty = tt.a[0] if tt is not None and tt.k == "dict" and tt.a else None
+                vty = tt.a[1] if tt is not None and tt.k == "dict" and len(tt.a) > 1 else None
                 for k2, x in v["$dict"]:
-                    out[self.build(k2)] = self.build(x)
+                    try:
+                        out[self.build(k2, kty)] = self.build(x, vty)
+                    except TypeError:
+                        pass
+                return out
+            if "$dict_size" in v:
+                out = {}
+                self.memo[r] = out
                 return out
             if "$class" in v:
                 ci = Repo.get().class_by_name(v["$class"])
@@ -147,7 +186,7 @@ class Builder:
                         cand = _import_class(cand_ci)
                         if getattr(cand, "__abstractmethods__", None):
                             continue
-                        obj = cand.model_construct() if hasattr(cand, "model_construct") else object.__new__(cand)
+                        obj = _blank_instance(cand)
                         ci = cand_ci
                         break
                     except Exception:
@@ -182,7 +221,7 @@ class Builder:
                 ci = T.strip_opt(ty).a[0]
                 try:
                     cls = _import_class(ci)
-                    obj = cls.model_construct() if hasattr(cls, "model_construct") else object.__new__(cls)
+                    obj = _blank_instance(cls)
                     self.memo[r] = obj
                     return obj
                 except Exception:
